@@ -12,7 +12,7 @@
      POSITIONAL ::= STRING | STRING ',' INT | INT | INT ',' STRING                    positional l both spec w
      NAMED      ::= { name '=' VALUE [','] }   name one of fontId maxLineLength numLines cursorOverlapWidth, not
                     specified before, VALUE a STRING for fontId and an INT otherwise  named_seq spec w l spec' w'
-   w : written records the font-id TOKEN and the three integers the call writes (pint = strconv.ParseInt, 0 on error).
+   w : written records the font-id TOKEN and the three integers the call writes (pint = strconv.ParseInt with the error ignored: 0 on a syntax error, saturated on a range error).
    Quirks of the code that the grammar reproduces: the comma between named parameters is optional; `, )` is accepted
    after two positional parameters (and after a named one) but not after one; only the FIRST positional parameter
    counts as "specified": the second one may be given again by name, and the name wins (Ex2).
@@ -53,7 +53,7 @@
                               chosen_max pixels under the widths of the chosen font, with chosen_cursor reserved and
                               the chosen_lines discipline, and are a layout of the words of the text token.
    Examples (vm_compute on tokens produced by the model's lexer): Ex, Ex2, Ex3.
-   Model vs Go (Ex2.pint_out_of_range): an INT literal outside int64 is 0 for the model, MaxInt64 for Go. *)
+   Ex2.pint_out_of_range: an INT literal outside int64 is MaxInt64 / MinInt64 (as in Go; the model was corrected after this file found the difference). *)
 From Coq Require Import List String Ascii ZArith NArith Lia Bool.
 From Pory Require Import Lexer Ast Parser Format.
 Import ListNotations.
@@ -240,7 +240,7 @@ Proof. reflexivity. Qed.
 (* ====================================================================================================== *)
 (* PART 2 - the source grammar of a format(...) call, as relations over tokens                             *)
 (* ====================================================================================================== *)
-(* what the call WRITES: the font-id token, and the three integers (already converted by pint = strconv.ParseInt, 0 on error) *)
+(* what the call WRITES: the font-id token, and the three integers (already converted by pint = strconv.ParseInt with the error ignored) *)
 Record written := { wFont : option token; wMax : option Z; wLines : option Z; wCursor : option Z }.
 Definition w0 : written := {| wFont := None; wMax := None; wLines := None; wCursor := None |}.
 
@@ -1485,11 +1485,12 @@ Example first_positional_not_overridable :
   = Err (perr_tok (q IDENT "fontId") "duplicate parameter").
 Proof. vm_compute. reflexivity. Qed.
 
-(* NOTE (model vs Go): pint maps a literal strconv.ParseInt rejects to 0; for a SYNTAX error Go's `num, _ :=` is 0 too, but for
-   a RANGE error Go returns the saturated value (MaxInt64), so `format("..", 99999999999999999999)` never breaks a line in
-   the Go compiler while the model falls back to the font's maxLineLength *)
-Example pint_out_of_range : pint (t "99999999999999999999") = 0%Z.
-Proof. vm_compute. reflexivity. Qed.
+(* pint = `num, _ := strconv.ParseInt(lit, 0, 64)`: the value, 0 on a SYNTAX error, the saturated value on a RANGE error - so
+   `format("..", 99999999999999999999)` never breaks a line. (An earlier version of the model answered 0 for a range error; this
+   file's proof found the difference to the Go code, the model was corrected and out-of-range literals joined the C07 generator.) *)
+Example pint_out_of_range : pint (t "99999999999999999999") = 9223372036854775807%Z /\ pint (t "-99999999999999999999") = (-9223372036854775808)%Z /\
+  pint (t "0x") = 0%Z /\ pint (t "010") = 8%Z /\ pint (t "0x7fffffffffffffff") = 9223372036854775807%Z.
+Proof. vm_compute. repeat split; reflexivity. Qed.
 End Ex2.
 
 (* the stream hypothesis of PART 10 is the one of Consume.v / ProgSrc.lex_eof (the lexer's output satisfies it, and so does
